@@ -81,7 +81,7 @@ static void judge_line(void)
 static const char AL[] = "+ATB#Z9";
 struct case_budget chk_budget(const char *tier)
 {
-        struct case_budget b = { 0, strcmp(tier, "thorough") == 0 ? 600000 : 25000 };
+        struct case_budget b = { 0, strcmp(tier, "thorough") == 0 ? 3000000 : 80000 };
         return b;
 }
 void chk_run_case(uint64_t seed, long c, bool is_sweep)
